@@ -255,6 +255,21 @@ def scenarios(tier):
         add('Into/ref/' + tag, shape, [M('Into', [P('ty', ["&'static str", '&str'])], pin=True)],
             f={(vi, 1): [M('Into', [P('ty', ["&'static str", '&str'])], pin=True)] for vi in range(len(shape.variants))}, ftypes={(vi, 1): "&'static str" for vi in range(len(shape.variants))})
 
+    # ---- wide shapes: the same parameters at two-digit field positions and in the fourth variant
+    w12 = S('struct', [('t', 12)])
+    w4 = S('enum', [('t', 1), ('n', 5), ('t', 4), ('n', 1)])
+    for shape, tag, poss in ((w12, 'w12', [(0, 10), (0, 11)]), (w4, 'w4', [(2, 3), (1, 4), (3, 0)])):
+        for pos in poss:
+            named = shape.variants[pos[0]][0] == 'n'
+            add('Debug/f-ignore/%s%s' % (tag, pos), shape, [M('Debug')], f={pos: [M('Debug', [P('ignore', sp_flag('ignore'))], whole=['Debug = false'])]})
+            add('Debug/f-method/%s%s' % (tag, pos), shape, [M('Debug')], f={pos: [M('Debug', [P('method', sp_method('fmt_m')), P('ignore', sp_notflag('ignore'))])]})
+            if named:
+                add('Debug/f-name/%s%s' % (tag, pos), shape, [M('Debug')], f={pos: [M('Debug', [P('name', sp_name('kk')), P('method', sp_method('fmt_m'))], whole=[])]})
+            for carrier, tl in (('PartialOrd', [M('PartialOrd')]), ('Ord', [M('PartialOrd'), M('Ord')])):
+                add('%s/f-rank/%s%s' % (carrier, tag, pos), shape, tl, f={pos: [M(carrier, [P('rank', sp_rank(-3)), P('method', sp_method('cmp_m'))])], (pos[0], 0): [M(carrier, [P('rank', sp_rank(0))])] if pos[1] != 0 else []})
+            add('Hash/f-ignore/%s%s' % (tag, pos), shape, [M('Hash'), M('PartialEq')], f={pos: [M('Hash', [P('ignore', sp_flag('ignore'))], whole=['Hash = false']), M('PartialEq', [P('method', sp_method('eq_m'))])]})
+            v = {pos[0]: [M('Default')]} if shape.kind == 'enum' else {}
+            add('Default/f-expr/%s%s' % (tag, pos), shape, [M('Default')], v=v, f={pos: [M('Default', [P('expression', sp_expr('-7'))], whole=['Default = -7'])]}, ftypes={pos: 'i64'})
     # ---- many traits at once: trait order and attribute splitting
     for shape, tag in ((sn, 'sn'), (en, 'en')):
         add('multi4/' + tag, shape, [M('Debug'), M('Clone'), M('PartialEq', [P('bound', SP_BOUND_OFF)]), M('Hash')],
